@@ -240,7 +240,7 @@ def report(prop, tier, seed, recs, claimed, tv_rec, pre, setup_errors, hm, wall)
         ev['coverage']['programs'] = max(1, len(recs))
         ev['coverage']['disagreements_checked'] = len(violations) + len(known)
     os.makedirs(EVIDENCE, exist_ok=True)
-    with open(os.path.join(EVIDENCE, prop + '.json'), 'w') as f:
+    with open(os.path.join(EVIDENCE, prop + os.environ.get('EVIDENCE_SUFFIX', '') + '.json'), 'w') as f:
         json.dump(ev, f, indent=1, default=str)
     print('%s tier=%s: %d obligations (%d non-trivial, %d discharged), %d paths, %d queries, solver %.1fs, wall %.1fs, '
           'violations=%d known=%d inconclusive=%d errors=%d -> exit %d'
